@@ -22,29 +22,62 @@
 
 typedef long long h4v_i64;
 /* ------------------------------- ghost state ------------------------------- */
-int32    g_aid;         /* the access id the coder owns */
-int32    g_io_n;        /* number of I/O calls so far */
-int32    g_io_fail_at;  /* the I/O call with this ordinal fails (fault injection), <0: none */
-int      g_io_failed;   /* some I/O stub returned FAIL */
-int32    g_k;           /* ghost position in the uncompressed stream */
-unsigned g_exp;         /* the byte of the uncompressed stream at g_k */
-/* write side */
-int      g_wst;         /* 0 expecting a count byte, 1 expecting the run byte, 2 expecting literals */
-unsigned g_wcnt;        /* count byte of the packet in progress */
-int32    g_wneed;       /* literals still missing from the mix packet in progress */
-int32    g_emit;        /* number of stream bytes the packets emitted so far decode to */
-int      g_got;         /* position g_k has been emitted */
-unsigned g_val;         /* ... and decodes to this byte */
-/* read side */
-int      g_rst;         /* as g_wst */
-unsigned g_rcnt;
-int32    g_rneed;
-h4v_i64  g_dpos;        /* number of stream bytes the packets fetched so far decode to */
-int      g_have;        /* the packet covering g_k has been fetched (g_exp is then defined by it) */
-/* ghost byte store ("disk") */
-uint8   *g_disk;
-int32    g_disk_cap, g_disk_n, g_dp;
-unsigned g_sink;
+/* all ghost state lives in ONE object: a single assigns target keeps dfcc's write-set checks small */
+struct h4v_ghost_const { /* never written by stubs or code */
+    int32    aid;        /* the access id the coder owns */
+    unsigned io_fail_at; /* the I/O call with this ordinal fails (fault injection) */
+    int32    k;          /* ghost position in the uncompressed stream */
+    unsigned exp;        /* write side: the byte of the input stream at g_k */
+    uint8   *disk;       /* ghost byte store ("disk"), NULL: none */
+    int32    disk_cap;
+} GC;
+struct h4v_ghost {
+    unsigned io_n;       /* number of I/O calls so far */
+    int      io_failed;  /* some I/O stub returned FAIL */
+    /* write side */
+    int      wst;   /* 0 expecting a count byte, 1 expecting the run byte, 2 expecting literals */
+    unsigned wcnt;  /* count byte of the packet in progress */
+    int32    wneed; /* literals still missing from the mix packet in progress */
+    int32    emit;  /* number of stream bytes the packets emitted so far decode to */
+    int      got;   /* position g_k has been emitted */
+    unsigned val;   /* ... and decodes to this byte */
+    /* read side */
+    int      rst; /* as wst */
+    unsigned rcnt;
+    int32    rneed;
+    h4v_i64  dpos; /* number of stream bytes the packets fetched so far decode to */
+    int      have; /* the packet covering g_k has been fetched ... */
+    unsigned dexp; /* ... and decodes to this byte at g_k */
+    int32    disk_n, dp; /* bytes in the store, current position */
+    unsigned sink;
+    int32    start_ret;
+} G;
+#define g_aid        GC.aid
+#define g_io_n       G.io_n
+#define g_io_fail_at GC.io_fail_at
+#define g_io_failed  G.io_failed
+#define g_k          GC.k
+#define g_exp        GC.exp
+#define g_wst        G.wst
+#define g_wcnt       G.wcnt
+#define g_wneed      G.wneed
+#define g_emit       G.emit
+#define g_got        G.got
+#define g_val        G.val
+#define g_rst        G.rst
+#define g_rcnt       G.rcnt
+#define g_rneed      G.rneed
+#define g_dpos       G.dpos
+#define g_have       G.have
+#define g_dexp       G.dexp
+#define g_disk       GC.disk
+#define g_disk_cap   GC.disk_cap
+#define g_disk_n     G.disk_n
+#define g_dp         G.dp
+#define g_sink       G.sink
+#define g_start_ret  G.start_ret
+#define G_ALL        __CPROVER_object_whole(&G)
+#define RLE_ALL(info) __CPROVER_object_upto((uint8 *)RI(info), sizeof(comp_coder_rle_info_t))
 
 /* ------------------------ representation predicates ------------------------ */
 #define RF(info, f) ((info)->cinfo.coder_info.rle_info.f)
@@ -85,8 +118,8 @@ unsigned g_sink;
                       (g_k < g_dpos - PENDING(r)                                                     \
                            ? 1                                                                       \
                            : ((r)->rle_state == RLE_RUN                                              \
-                                  ? (r)->last_byte == g_exp                                          \
-                                  : (r)->buffer[(r)->buf_pos + (g_k - (g_dpos - PENDING(r)))] == g_exp))))
+                                  ? (r)->last_byte == g_dexp                                         \
+                                  : (r)->buffer[(r)->buf_pos + (g_k - (g_dpos - PENDING(r)))] == g_dexp))))
 
 /* --------------------------------- stubs ----------------------------------- */
 static int
@@ -102,6 +135,9 @@ io_fails(void)
 static void
 disk_put(const uint8 *p, int32 n)
 {
+#ifdef RLE_NOSTORE
+    return;
+#endif
     if (g_disk == NULL)
         return;
     H4V_CHECK(g_dp >= 0 && g_dp <= g_disk_cap - n, "ghost store capacity (bound of the harness, not of the code)");
@@ -168,7 +204,9 @@ Hwrite(int32 access_id, int32 length, const void *data)
         return FAIL;
     if (io_fails())
         return FAIL;
-    g_sink = (unsigned)p[0] + p[length - 1]; /* whole source range readable */
+#ifdef H4V_CBMC
+    H4V_CHECK(__CPROVER_r_ok(p, (size_t)length), "Hwrite source range readable");
+#endif
     if (g_wst == 2) {
         H4V_CHECK(length <= g_wneed, "packet protocol: no more literals than the count byte announced");
         if (g_k >= g_emit && g_k - g_emit < length) {
@@ -204,7 +242,7 @@ rd_byte(unsigned c)
         int32 n = PK_RUNLEN(g_rcnt);
         if (g_k >= g_dpos && g_k - g_dpos < n) {
             g_have = 1;
-            g_exp  = c;
+            g_dexp  = c;
         }
         g_dpos += n;
         g_rst = 0;
@@ -212,7 +250,7 @@ rd_byte(unsigned c)
     else {
         if (g_k == g_dpos) {
             g_have = 1;
-            g_exp  = c;
+            g_dexp  = c;
         }
         g_dpos += 1;
         g_rneed -= 1;
@@ -263,7 +301,7 @@ Hread(int32 access_id, int32 length, void *data)
         H4V_CHECK(length <= g_rneed, "packet protocol: reader takes no more literals than the count byte announced");
         if (g_k >= g_dpos && g_k - g_dpos < length) {
             g_have = 1;
-            g_exp  = g_disk[g_dp + (g_k - g_dpos)];
+            g_dexp  = g_disk[g_dp + (g_k - g_dpos)];
         }
         g_dpos += length;
         g_rneed -= length;
@@ -289,7 +327,6 @@ Hseek(int32 access_id, int32 offset, int origin)
     return SUCCEED;
 }
 
-int32 g_start_ret;
 int32
 Hstartread(int32 file_id, uint16 tag, uint16 ref)
 {
@@ -318,10 +355,7 @@ static int32 HCIcrle_encode(compinfo_t *info, int32 length, const uint8 *buf)
     __CPROVER_requires(g_k >= 0 && ENC_CODED(RI(info)))
     /* g_exp is the input byte at stream position g_k, if this call supplies it */
     __CPROVER_requires((g_k >= RF(info, offset) && g_k - RF(info, offset) < length) ==> buf[g_k - RF(info, offset)] == g_exp)
-    __CPROVER_assigns(RF(info, offset), RF(info, rle_state), RF(info, last_byte), RF(info, second_byte),
-                      RF(info, buf_length), RF(info, buf_pos), __CPROVER_object_upto(RF(info, buffer), 128),
-                      g_wst, g_wcnt, g_wneed, g_emit, g_got, g_val, g_io_n, g_io_failed, g_sink, g_dp, g_disk_n;
-                      g_disk != NULL: __CPROVER_object_whole(g_disk))
+    __CPROVER_assigns(RLE_ALL(info), G_ALL; g_disk != NULL: __CPROVER_object_whole(g_disk))
     __CPROVER_ensures(__CPROVER_return_value == SUCCEED || __CPROVER_return_value == FAIL)
     /* with a well-formed state only an I/O failure makes the encoder fail */
     __CPROVER_ensures(__CPROVER_return_value == FAIL ==> g_io_failed == 1)
@@ -332,15 +366,13 @@ static int32 HCIcrle_encode(compinfo_t *info, int32 length, const uint8 *buf)
     __CPROVER_ensures(__CPROVER_return_value == SUCCEED ==> RF(info, offset) == __CPROVER_old(RF(info, offset)) + length)
     __CPROVER_ensures(__CPROVER_return_value == SUCCEED ==> g_emit == RF(info, offset) - PENDING(RI(info)))
     /* the byte at g_k is what the packets decode to there, or still pending in the state */
-    __CPROVER_ensures(1);
+    __CPROVER_ensures(__CPROVER_return_value == SUCCEED ==> ENC_CODED(RI(info)));
 
 static int32 HCIcrle_term(compinfo_t *info)
     __CPROVER_requires(info != NULL && info->aid == g_aid && ENC_WF(RI(info)))
     __CPROVER_requires(g_wst == 0 && g_emit >= 0 && RF(info, offset) >= 0 && g_emit == RF(info, offset) - PENDING(RI(info)))
     __CPROVER_requires(g_k >= 0 && ENC_CODED(RI(info)))
-    __CPROVER_assigns(RF(info, rle_state), RF(info, last_byte), RF(info, second_byte),
-                      g_wst, g_wcnt, g_wneed, g_emit, g_got, g_val, g_io_n, g_io_failed, g_sink, g_dp, g_disk_n;
-                      g_disk != NULL: __CPROVER_object_whole(g_disk))
+    __CPROVER_assigns(RF(info, rle_state), RF(info, last_byte), RF(info, second_byte), G_ALL; g_disk != NULL: __CPROVER_object_whole(g_disk))
     __CPROVER_ensures(__CPROVER_return_value == SUCCEED || __CPROVER_return_value == FAIL)
     __CPROVER_ensures(__CPROVER_return_value == FAIL ==> (g_io_failed == 1 || __CPROVER_old(RF(info, rle_state)) == RLE_INIT))
     __CPROVER_ensures(__CPROVER_old(RF(info, rle_state)) == RLE_INIT ==> __CPROVER_return_value == FAIL)
@@ -356,8 +388,7 @@ static int32 HCIcrle_decode(compinfo_t *info, int32 length, uint8 *buf)
     __CPROVER_requires(g_rst == 0 && g_dpos >= 0 && g_dpos - PENDING(RI(info)) == RF(info, offset))
     __CPROVER_requires(g_k >= 0 && DEC_CODED(RI(info)))
     __CPROVER_assigns(RF(info, offset), RF(info, rle_state), RF(info, last_byte), RF(info, buf_length), RF(info, buf_pos),
-                      __CPROVER_object_upto(RF(info, buffer), 128), __CPROVER_object_upto(buf, length),
-                      g_rst, g_rcnt, g_rneed, g_dpos, g_have, g_exp, g_io_n, g_io_failed, g_dp)
+                      __CPROVER_object_upto(RF(info, buffer), 128), __CPROVER_object_upto(buf, length), G_ALL)
     __CPROVER_ensures(__CPROVER_return_value == SUCCEED || __CPROVER_return_value == FAIL)
     __CPROVER_ensures(__CPROVER_return_value == FAIL ==> g_io_failed == 1)
     __CPROVER_ensures(__CPROVER_return_value == SUCCEED ==> DEC_WF(RI(info)))
@@ -368,14 +399,14 @@ static int32 HCIcrle_decode(compinfo_t *info, int32 length, uint8 *buf)
     __CPROVER_ensures(__CPROVER_return_value == SUCCEED ==> DEC_CODED(RI(info)))
     /* the byte delivered for stream position g_k is what the fetched packets decode to there */
     __CPROVER_ensures((__CPROVER_return_value == SUCCEED && g_k >= __CPROVER_old(RF(info, offset)) && g_k < RF(info, offset)) ==>
-                      (g_have == 1 && buf[g_k - __CPROVER_old(RF(info, offset))] == g_exp));
+                      (g_have == 1 && buf[g_k - __CPROVER_old(RF(info, offset))] == g_dexp));
 
 static int32 HCIcrle_init(accrec_t *access_rec)
     __CPROVER_requires(access_rec != NULL && access_rec->special_info != NULL)
     __CPROVER_requires(((compinfo_t *)access_rec->special_info)->aid == g_aid)
     __CPROVER_assigns(RF((compinfo_t *)access_rec->special_info, offset), RF((compinfo_t *)access_rec->special_info, rle_state),
                       RF((compinfo_t *)access_rec->special_info, last_byte), RF((compinfo_t *)access_rec->special_info, second_byte),
-                      RF((compinfo_t *)access_rec->special_info, buf_pos), g_io_n, g_io_failed, g_dp)
+                      RF((compinfo_t *)access_rec->special_info, buf_pos), G_ALL)
     __CPROVER_ensures(__CPROVER_return_value == SUCCEED || __CPROVER_return_value == FAIL)
     __CPROVER_ensures(__CPROVER_return_value == FAIL ==> g_io_failed == 1)
     __CPROVER_ensures(__CPROVER_return_value == SUCCEED ==>
@@ -393,6 +424,27 @@ static int32 HCIcrle_init(accrec_t *access_rec)
 #endif
 
 /* -------------------------------- harnesses -------------------------------- */
+/* The environment allocates the compinfo_t as an object of the same size and layout whose
+   declared type exposes the RLE member of the coder union directly (the rest is raw bytes).
+   Reason: cbmc models the 1272-byte coder union as one bit-vector and every buffer[i] access
+   with symbolic i through it costs ~120 K clauses (12 M clauses for the encoder); through the
+   view the same accesses are array accesses.  The RLE kernels see exactly the same memory. */
+#include <stddef.h>
+#define RLE_OFF offsetof(compinfo_t, cinfo.coder_info.rle_info)
+typedef struct {
+    uint8                 pre[RLE_OFF];
+    comp_coder_rle_info_t rle_info;
+    uint8                 post[sizeof(compinfo_t) - RLE_OFF - sizeof(comp_coder_rle_info_t)];
+} compinfo_rle_view_t;
+static compinfo_t *
+alloc_info(void)
+{
+    compinfo_rle_view_t *v = malloc(sizeof(compinfo_rle_view_t));
+    H4V_ASSUME(v != NULL);
+    H4V_CHECK(sizeof(compinfo_rle_view_t) == sizeof(compinfo_t) && offsetof(compinfo_rle_view_t, rle_info) == RLE_OFF,
+              "view has the layout of compinfo_t");
+    return (compinfo_t *)v;
+}
 H4V_DECL_ND(int32);
 H4V_DECL_ND(int);
 H4V_DECL_ND(unsigned);
@@ -401,24 +453,40 @@ H4V_DECL_ND(h4v_i64);
 static void
 havoc_ghosts(void)
 {
-    H4V_HAVOC(int32, g_aid);
-    H4V_HAVOC(int32, g_io_n);
-    H4V_HAVOC(int32, g_io_fail_at);
+    H4V_ND(int32, g_aid_0);
+    g_aid = g_aid_0;
+    H4V_ND(unsigned, g_io_n_0);
+    g_io_n = g_io_n_0;
+    H4V_ND(unsigned, g_io_fail_at_0);
+    g_io_fail_at = g_io_fail_at_0;
     g_io_failed = 0;
-    H4V_HAVOC(int32, g_k);
-    H4V_HAVOC(unsigned, g_exp);
-    H4V_HAVOC(int, g_wst);
-    H4V_HAVOC(unsigned, g_wcnt);
-    H4V_HAVOC(int32, g_wneed);
-    H4V_HAVOC(int32, g_emit);
-    H4V_HAVOC(int, g_got);
-    H4V_HAVOC(unsigned, g_val);
-    H4V_HAVOC(int, g_rst);
-    H4V_HAVOC(unsigned, g_rcnt);
-    H4V_HAVOC(int32, g_rneed);
-    H4V_HAVOC(h4v_i64, g_dpos);
-    H4V_HAVOC(int, g_have);
-    H4V_ASSUME(g_io_n >= 0 && g_io_n < 1000000);
+    H4V_ND(int32, g_k_0);
+    g_k = g_k_0;
+    H4V_ND(unsigned, g_exp_0);
+    g_exp = g_exp_0;
+    H4V_ND(int, g_wst_0);
+    g_wst = g_wst_0;
+    H4V_ND(unsigned, g_wcnt_0);
+    g_wcnt = g_wcnt_0;
+    H4V_ND(int32, g_wneed_0);
+    g_wneed = g_wneed_0;
+    H4V_ND(int32, g_emit_0);
+    g_emit = g_emit_0;
+    H4V_ND(int, g_got_0);
+    g_got = g_got_0;
+    H4V_ND(unsigned, g_val_0);
+    g_val = g_val_0;
+    H4V_ND(int, g_rst_0);
+    g_rst = g_rst_0;
+    H4V_ND(unsigned, g_rcnt_0);
+    g_rcnt = g_rcnt_0;
+    H4V_ND(int32, g_rneed_0);
+    g_rneed = g_rneed_0;
+    H4V_ND(h4v_i64, g_dpos_0);
+    g_dpos = g_dpos_0;
+    H4V_ND(int, g_have_0);
+    g_have = g_have_0;
+    
     g_disk     = NULL;
     g_disk_cap = g_disk_n = g_dp = 0;
 }
@@ -427,8 +495,7 @@ havoc_ghosts(void)
 static compinfo_t *
 mk_info(void)
 {
-    compinfo_t *info = malloc(sizeof(compinfo_t));
-    H4V_ASSUME(info != NULL);
+    compinfo_t *info = alloc_info();
     H4V_ND(int32, st_offset);
     H4V_ND(int, st_state);
     H4V_ND(int, st_buf_length);
@@ -539,7 +606,7 @@ void
 h_crle_roundtrip(void)
 {
     havoc_ghosts();
-    g_io_fail_at = -1;
+    g_io_fail_at = 0xffffffffu; g_io_n = 0;
     g_wst = g_rst = 0;
     g_emit = g_dpos = 0;
     g_got = g_have = 0;
@@ -550,9 +617,9 @@ h_crle_roundtrip(void)
     g_disk_cap = RT_CAP;
     g_disk_n = g_dp = 0;
 
-    compinfo_t *info = malloc(sizeof(compinfo_t));
+    compinfo_t *info = alloc_info();
     accrec_t   *ar   = malloc(sizeof(accrec_t));
-    H4V_ASSUME(info != NULL && ar != NULL);
+    H4V_ASSUME(ar != NULL);
     info->aid        = g_aid;
     ar->special_info = info;
 
